@@ -5,10 +5,18 @@ from mc import core, det, domains, sse
 PROPERTY = 'C03'
 ENGINE = 'E1 bounded-exhaustive enumeration of (scheme, configuration point, profile, keyword) through three separate scheme instances'
 LEVEL = 'model_checking'
+DIRECTED_ADDITIONS = 'patterned keys, parties with different object histories, configuration sweep in both directions, server-side parsing with a separately built configuration object, mixed-length identifiers (PiBas)'      # members added during the seeded-change campaign (DESIGN 7); counted under their own vacuity counters
+
 CHUNK = 40
 
 
 def describe(tier):
+    d = _describe(tier)
+    d['rule'] = d['rule'] + ' Directed additions: ' + DIRECTED_ADDITIONS + '.'
+    return d
+
+
+def _describe(tier):
     n = 6 if tier == 'quick' else 8
     return {
         'rule': 'case = (scheme, configuration point of G(S) - including every point where a width differs from the default the '
